@@ -23,9 +23,9 @@ def check(ctx):
     q = ctx.quick
     mod = ctx.path("MC_ZstdFrames.tla")
     with open(mod, "w") as f:
-        f.write("---- MODULE MC_ZstdFrames ----\nEXTENDS ZstdFrames\n====\n")
+        f.write("---- MODULE MC_ZstdFrames ----\nEXTENDS ZstdFrames\nDictContentDef == <<>>\nDictRepDef == <<1, 4, 8>>\n====\n")
     cfg = ctx.path("MC_ZstdFrames.cfg")
-    write_cfg(cfg, constants={"Tier": '"thorough"'})   # the enumeration is cheap: both tiers use the full set
+    write_cfg(cfg, constants={"Tier": '"thorough"', "DictContent": "<- DictContentDef", "DictRep": "<- DictRepDef"})   # the enumeration is cheap: both tiers use the full set
     res = tlc(ctx, mod, cfg, workers=1, name="MC_ZstdFrames", heap="-Xmx8g", timeout=3000)
     tlc_must_pass(ctx, res, "ZstdFrames")
     cases = ctx.path("zf_cases.ndjson")
